@@ -292,20 +292,23 @@ func (st *state) apiOp(toks []string) (out string, annot string) {
 		return "ok", ""
 	case "close":
 		in := st.cur()
+		now := time.Now().UnixMilli()
 		err := in.n.Close()
 		if err != nil {
-			return "E", ""
+			return "E", fmt.Sprintf(" now=%d", now)
 		}
-		return "ok", ""
+		return "ok", fmt.Sprintf(" now=%d", now)
 	case "reopen": // Close must have been called
 		in := st.cur()
 		return st.openInstance(st.current, in.backend, in.dir, false), ""
 	case "gc":
+		now := time.Now().UnixMilli()
 		st.cur().n.VerifGC()
-		return "ok", ""
+		return "ok", fmt.Sprintf(" now=%d", now)
 	case "flush":
+		now := time.Now().UnixMilli()
 		st.cur().n.VerifFlush()
-		return "ok", ""
+		return "ok", fmt.Sprintf(" now=%d", now)
 	case "sleep":
 		ms, _ := strconv.ParseInt(toks[1], 10, 64)
 		time.Sleep(time.Duration(ms) * time.Millisecond)
